@@ -155,3 +155,65 @@ Lemma serialize_rename_invariant (rho : Z -> Z) objs objs' ord :
   (forall a b, rho a = rho b -> a = b) -> renamed_objs rho objs objs' ->
   serialize_ord objs' (map rho ord) = serialize_ord objs ord.
 Proof. intros Hinj Hren. apply serialize_rename; assumption. Qed.
+
+(* ------------------------------------------------------------------------------------------ *)
+(* the ids held by the store are distinct draws of the counter                                  *)
+
+Definition store_inv (st : store) : Prop := NoDup (map snd (st_objs st) ++ st_ids st).
+
+Lemma store_add_inv st d st' id : store_add st d = Some (st', id) -> store_inv st -> store_inv st'.
+Proof.
+  unfold store_add, store_inv. destruct (store_find d (st_objs st)) as [i|].
+  - intros [= <- <-]. auto.
+  - destruct (st_ids st) as [|i rest] eqn:E; [discriminate|]. intros [= <- <-] H.
+    cbn [st_objs st_ids]. rewrite map_app. cbn [map snd]. rewrite <- app_assoc. exact H.
+Qed.
+
+Lemma add_table_inv : forall fuel d idx st st' id,
+  add_table fuel d idx st = Some (st', id) -> store_inv st -> store_inv st'.
+Proof.
+  induction fuel as [|f IH]; intros d idx st st' id H Hinv; [discriminate|].
+  cbn [add_table] in H. destruct (nth_error d idx) as [items|]; [|discriminate].
+  match type of H with context [(fix write_items (its : list item) (data : obj) (st : store) {struct its} := _) items _ _] =>
+    set (wi := fix write_items (its : list item) (data : obj) (st : store) {struct its} : option (obj * store) :=
+            match its with
+            | [] => Some (data, st)
+            | IRun b n :: r => write_items r (mkObj (o_bytes data ++ repeat b (Z.to_nat n)) (o_links data)) st
+            | ILit l :: r => write_items r (mkObj (o_bytes data ++ l) (o_links data)) st
+            | ILink w c :: r =>
+                do sc <- add_table f d c st;;
+                write_items r (add_offset data (snd sc) w 0) (fst sc)
+            end) in H end.
+  assert (Hwi : forall its data s data' s', wi its data s = Some (data', s') -> store_inv s -> store_inv s').
+  { induction its as [|it r IHr]; intros data s data' s' Hw Hs.
+    - cbn in Hw. inversion Hw; subst. exact Hs.
+    - destruct it as [b n|l|w c]; cbn in Hw.
+      + eapply IHr; eauto.
+      + eapply IHr; eauto.
+      + destruct (add_table f d c s) as [[s1 i1]|] eqn:Ea; cbn [obind] in Hw; [|discriminate].
+        eapply IHr; [exact Hw|]. eapply IH; eauto. }
+  destruct (wi items (mkObj [] []) st) as [[data s1]|] eqn:Ew; cbn [obind] in H; [|discriminate].
+  cbn [fst snd] in H. eapply store_add_inv; [exact H|]. eapply Hwi; eauto.
+Qed.
+
+Lemma nodup_app_l {A} (a b : list A) : NoDup (a ++ b) -> NoDup a.
+Proof.
+  induction a as [|x r IH]; cbn; intros H; [constructor|].
+  inversion H; subst. constructor; [|apply IH; assumption].
+  intro Hin. apply H2. apply in_or_app. left. exact Hin.
+Qed.
+
+Lemma store_ids_nodup d ids st root : NoDup ids ->
+  add_table (S (length d)) d 0%nat (mkStore [] ids) = Some (st, root) -> NoDup (map snd (st_objs st)).
+Proof.
+  intros Hnd H. pose proof (add_table_inv _ _ _ _ _ _ H) as Hi.
+  unfold store_inv in Hi. cbn [st_objs st_ids map app] in Hi. specialize (Hi Hnd).
+  apply nodup_app_l in Hi. exact Hi.
+Qed.
+
+Theorem dump_table_hash_order_independent (perm : list (obj * Z) -> list (obj * Z)) d ids :
+  (forall l, Permutation l (perm l)) -> NoDup ids -> dump_table_perm perm d ids = dump_table d ids.
+Proof.
+  intros HP Hnd. apply dump_table_perm_independent; [exact HP|].
+  intros st root H. eapply store_ids_nodup; eauto.
+Qed.
